@@ -813,6 +813,8 @@ fn fail_all_pending(inner: &std::sync::Weak<ClientInner>, err: RepeError) {
         return;
     };
 
+    #[cfg(feature = "verif-hooks")]
+    crate::verif::probe("cm_fail_start");
     {
         let writer = match inner_ref.writer.lock() {
             Ok(guard) => guard,
@@ -820,6 +822,8 @@ fn fail_all_pending(inner: &std::sync::Weak<ClientInner>, err: RepeError) {
         };
         let _ = writer.get_ref().shutdown(Shutdown::Both);
     }
+    #[cfg(feature = "verif-hooks")]
+    crate::verif::probe("cm_fail_mid");
 
     let waiters = {
         let mut map = match inner_ref.pending.lock() {
